@@ -58,7 +58,7 @@ def run(ctx):
                'the cube format requires the parameter table in cube order (convolve_model_dir refuses otherwise)',
                'fits are compared with the numeric reference (C01/C02) per variant, which is what "agree" means up to the float32 memmap bound')
     ctx.require_events('ConvolvedFluxes.sort_to_match:post', 'file:checked', 'twin:compared', 'fit:checked')
-    ctx.require_regimes('gz', 'subdir', 'mixed-order', 'cube:desc', 'cube:asc', 'f32', 'n_ap>1', 'n_ap=1', 'memmap:on', 'memmap:off', 'filters>1')
+    ctx.require_regimes('gz', 'subdir', 'mixed-order', 'cube:desc', 'cube:asc', 'f32', 'n_ap>1', 'n_ap=1', 'memmap:on', 'memmap:off', 'filters>1', 'filters-used-before')
     n_pkg = 7 if ctx.quick else 120
     for ip in range(n_pkg):
         n_m = int(rng.integers(1, 9))
@@ -103,6 +103,18 @@ def run(ctx):
             filters.append(convcheck.build_filter('T%d' % jf, fw, resp, central, descending_nu=bool(rng.random() < 0.5)))
         wit0 = dict(n_models=n_m, n_ap=n_ap, n_wav=n_w, names=names, table_order=order, desc=desc, gz=gz, length_subdir=lsub,
                     cube_desc=cdesc, f32=f32, sed_wav=truth.wav)
+        if ip % 2 == 0:
+            # history: the very same Filter objects are first used to convolve another package whose frequency grid has the
+            # same length but different values; nothing may carry over to the packages convolved next
+            decoy = convcheck.make_truth(rng, 2, n_ap, n_w, names=['dk1', 'dk2'], f32=False)
+            dd = ctx.newdir('dk_')
+            pkg.build_v2(dd, decoy) if rng.random() < 0.5 else pkg.build_v1(dd, decoy, fmt='D')
+            try:
+                convolve_model_dir(dd, filters)
+                ctx.regime('filters-used-before')
+            except Exception as exc:
+                ctx.violation('convolve-raised:decoy', 'convolve_model_dir raised: %r' % (exc,), wit0)
+            ctx.rmdir(dd)
         got = {}
         edge_tol = {}
         for style, d in (('v1', d1), ('v2', d2)):
